@@ -3,14 +3,15 @@
 package referenceserver
 
 import (
-	"encoding/binary"
 	"bytes"
 	"context"
 	"crypto/tls"
 	"crypto/x509"
 	"crypto/x509/pkix"
 	"encoding/base64"
+	"encoding/binary"
 	"fmt"
+	"github.com/quic-go/quic-go/http3"
 	"io"
 	"math"
 	"math/big"
@@ -908,4 +909,128 @@ func (b *vfLockedBuffer) String() string {
 	b.mu.Lock()
 	defer b.mu.Unlock()
 	return b.buf.String()
+}
+
+// TestVerifC12TLS: the TLS / client-certificate aspect over all three HTTP versions with real handshakes: reference
+// servers started under TLS with and without a required client certificate, plain HTTP clients (net/http for
+// HTTP/1.1 and HTTP/2, quic-go for HTTP/3) that present the client certificate or none. Matching expectation headers
+// draw no feedback; expecting plain text, or another (or no) client certificate than the one used, draws feedback
+// naming the test case.
+func TestVerifC12TLS(t *testing.T) {
+	en := verifkit.NewEnum(t, "C12TLS")
+	type row struct {
+		Version    int    `json:"httpVersion"`
+		ClientCert bool   `json:"clientCert"`
+		Expect     string `json:"expect"` // match, plaintext, other-cert
+	}
+	srvCert, srvKey, err := internal.NewServerCert()
+	if err != nil {
+		t.Fatal(err)
+	}
+	cliCert, cliKey, err := internal.NewClientCert()
+	if err != nil {
+		t.Fatal(err)
+	}
+	seq := 0
+	for _, version := range []int{1, 2, 3} {
+		for _, withCert := range []bool{false, true} {
+			req := &conformancev1.ServerCompatRequest{Protocol: conformancev1.Protocol_PROTOCOL_CONNECT, HttpVersion: conformancev1.HTTPVersion(version), UseTls: true,
+				ServerCreds: &conformancev1.TLSCreds{Cert: srvCert, Key: srvKey}}
+			var cc, ck []byte
+			if withCert {
+				req.ClientTlsCert = cliCert
+				cc, ck = cliCert, cliKey
+			}
+			srv, err := vfStartRefServerWith(req)
+			if err != nil {
+				continue // environment (no UDP, ...)
+			}
+			tlsConf, err := internal.NewClientTLSConfig(srv.cert, cc, ck)
+			if err != nil {
+				srv.stop()
+				t.Fatal(err)
+			}
+			var rt http.RoundTripper
+			var closer func()
+			switch version {
+			case 1:
+				tr := &http.Transport{TLSClientConfig: tlsConf, TLSNextProto: map[string]func(string, *tls.Conn) http.RoundTripper{}, DisableCompression: true}
+				rt, closer = tr, tr.CloseIdleConnections
+			case 2:
+				tr := &http2.Transport{TLSClientConfig: tlsConf, DisableCompression: true}
+				rt, closer = tr, tr.CloseIdleConnections
+			default:
+				tr := &http3.Transport{TLSClientConfig: tlsConf, DisableCompression: true}
+				rt, closer = tr, func() { _ = tr.Close() }
+			}
+			client := &http.Client{Transport: rt, Timeout: 20 * time.Second}
+			for _, expect := range []string{"match", "plaintext", "other-cert"} {
+				seq++
+				r := row{version, withCert, expect}
+				name := fmt.Sprintf("verif/c12tls/%d", seq)
+				body, _ := proto.Marshal(&conformancev1.UnaryRequest{ResponseDefinition: &conformancev1.UnaryResponseDefinition{Response: &conformancev1.UnaryResponseDefinition_ResponseData{ResponseData: []byte("ok")}}})
+				hreq, _ := http.NewRequest(http.MethodPost, "https://"+srv.addr+"/connectrpc.conformance.v1.ConformanceService/Unary", bytes.NewReader(body))
+				hreq.Header.Set("Content-Type", "application/proto")
+				hreq.Header.Set("Connect-Protocol-Version", "1")
+				hreq.Header.Set("X-Test-Case-Name", name)
+				hreq.Header.Set("X-Expect-Http-Version", fmt.Sprint(version))
+				hreq.Header.Set("X-Expect-Http-Method", "POST")
+				hreq.Header.Set("X-Expect-Protocol", "1")
+				hreq.Header.Set("X-Expect-Codec", "1")
+				hreq.Header.Set("X-Expect-Compression", "1")
+				hreq.Header.Set("X-Expect-Tls", fmt.Sprint(expect != "plaintext"))
+				wantCert := ""
+				if withCert {
+					wantCert = internal.ClientCertName
+				}
+				if expect == "other-cert" {
+					if withCert {
+						wantCert = "" // the runner thinks no certificate is in use
+					} else {
+						wantCert = internal.ClientCertName
+					}
+				}
+				if wantCert != "" {
+					hreq.Header.Set("X-Expect-Client-Cert", wantCert)
+				}
+				var viol error
+				hresp, err := client.Do(hreq)
+				if err != nil {
+					viol = verifkit.Violf("tls-request-failed", "HTTP/%d request under TLS (client certificate: %v) failed: %v", version, withCert, err)
+				} else {
+					_, _ = io.Copy(io.Discard, hresp.Body)
+					_ = hresp.Body.Close()
+					srv.waitForLine(name+": ", 300*time.Millisecond)
+					fb := srv.feedbackFor(name)
+					switch {
+					case expect == "match" && len(fb) > 0:
+						viol = verifkit.Violf("tls-match-flagged", "HTTP/%d under TLS, client certificate %v, every expectation matches, but the server reported %q", version, withCert, fb)
+					case expect == "plaintext" && !vfAnyContains(fb, "expecting plain-text request"):
+						viol = verifkit.Violf("tls-mismatch-missed:plaintext", "HTTP/%d: the runner expected plain text, the request came under TLS, feedback %q", version, fb)
+					case expect == "other-cert" && !vfAnyContains(fb, "expecting client cert"):
+						viol = verifkit.Violf("tls-mismatch-missed:client-cert", "HTTP/%d: expected client certificate %q, used %v, feedback %q", version, wantCert, withCert, fb)
+					}
+				}
+				en.Rec.Observe(r, []string{fmt.Sprintf("http%d", version), fmt.Sprintf("client-cert:%v", withCert), "expect:" + expect}, true)
+				if viol != nil && en.Fail(r, viol) {
+					closer()
+					srv.stop()
+					en.Done(true)
+					return
+				}
+			}
+			closer()
+			srv.stop()
+		}
+	}
+	en.Done(true)
+}
+
+func vfAnyContains(lines []string, sub string) bool {
+	for _, l := range lines {
+		if strings.Contains(l, sub) {
+			return true
+		}
+	}
+	return false
 }
